@@ -1,7 +1,7 @@
 SPECIFICATION Spec
 CONSTANTS
   Strict = TRUE
-  MSigs = {"ok", "forged", "chunkbad"}
-  MToks = {"none", "ok", "expired"}
+  MSigs = {"ok", "forged"}
+  MToks = {"none", "expired"}
 INVARIANTS TypeOK C29_NoEffectForFailingRequest C29_ChecksPrecedeEffects C29_HeaderEACLBeforeData C29_ErrorStatusForFailingRequest C45_MaintenanceRefusal
 CHECK_DEADLOCK FALSE
